@@ -34,8 +34,10 @@ VERIF = Path(__file__).resolve().parent.parent
 REPO = Path(os.environ.get("VERIF_REPO", "/repo"))
 COQ = VERIF / "coq"
 THEORIES = COQ / "theories"
-EVIDENCE = VERIF / "evidence"
-REPLAYS = VERIF / "replays"
+# a run against a mutated copy (VERIF_REPO=<worktree>) must not overwrite the evidence / replays of /repo itself
+_MUT = REPO.resolve() != Path("/repo")
+EVIDENCE = Path(os.environ.get("VERIF_EVIDENCE_DIR", VERIF / (".scratch/evidence_mut" if _MUT else "evidence")))
+REPLAYS = Path(os.environ.get("VERIF_REPLAY_DIR", VERIF / (".scratch/replays_mut" if _MUT else "replays")))
 CORPUS = VERIF / "corpus"
 KNOWN_FILE = VERIF / "known_findings.txt"
 
@@ -414,8 +416,7 @@ class Run:
             return True
         replay = dict(replay)
         replay.update({"property": self.prop, "kind": kind, "seed": self.seed, "tier": self.tier})
-        REPLAYS.mkdir(exist_ok=True)
-        (REPLAYS / self.prop).mkdir(exist_ok=True)
+        (REPLAYS / self.prop).mkdir(parents=True, exist_ok=True)
         nm = name or f"{kind}_{len(self.violations)}"
         path = REPLAYS / self.prop / f"{nm}.json"
         path.write_text(json.dumps(replay, indent=1, default=str))
@@ -450,7 +451,7 @@ class Run:
             "coverage": self.coverage, "assumptions": self.assumptions,
             "wall_s": round(time.time() - self.t0, 2), "violations": len(self.violations) + self.suppressed,
         }
-        EVIDENCE.mkdir(exist_ok=True)
+        EVIDENCE.mkdir(parents=True, exist_ok=True)
         (EVIDENCE / f"{self.prop}.json").write_text(json.dumps(ev, indent=1, default=str) + "\n")
         for s, h in self.known_hits.items():
             print(f"KNOWN-FINDING: property={self.prop} id={h['k'].get('id')} selector={s} "
